@@ -297,6 +297,10 @@ class Walker:
                 r = self.eval_call(target, args, kwargs, st)
                 if r is not None:
                     return r
+                if target[0] == 'name' and target[1] in self.facts.classes:
+                    return ('new', target[1], args, kwargs)
+                if target[0] == 'name' and target[1] in self.facts.funcs:
+                    return ('call', target[1], args, kwargs)
                 if target[0] == 'call' and target[1] == 'type' and len(target[2]) == 1 and not target[3]:
                     # type(x)(...) is x.__class__(...)
                     return ('mcall', target[2][0], '__class__', args, kwargs)
@@ -333,6 +337,13 @@ class Walker:
             parts = []
             for op, comp in zip(node.ops, node.comparators):
                 right = self.sym(comp, st)
+                if isinstance(op, (ast.In, ast.NotIn)) and right[0] == 'name' and right[1] not in st.env:
+                    # membership in a small module-level table: the finite set of its keys
+                    tbl = self.facts.tables.get(right[1])
+                    if tbl is None and isinstance(self.facts.consts.get(right[1]), (dict, set, frozenset, list, tuple)):
+                        tbl = self.facts.consts[right[1]]
+                    if tbl is not None and 0 < len(tbl) <= 8 and all(isinstance(k, (str, int)) for k in tbl):
+                        right = ('tuple', tuple(C(k) for k in tbl))
                 parts.append(('cmp', _CMPS[type(op)], left, right))
                 left = right
             return parts[0] if len(parts) == 1 else ('bool', 'and', tuple(parts))
@@ -352,6 +363,14 @@ class Walker:
                 sl = node.slice
                 return ('slice', base, self.sym(sl.lower, st), self.sym(sl.upper, st), self.sym(sl.step, st))
             idx = self.sym(node.slice, st)
+            if not is_const(idx):
+                f_ = st.facts.get(idx)
+                if f_ and f_['eq'] is not None:
+                    idx = f_['eq']
+            if base[0] == 'name' and is_const(idx) and base[1] not in self.facts.consts and base[1] in self.facts.tables \
+                    and idx[1] in self.facts.tables[base[1]]:
+                # a module-level table of named bindings (classes / functions) indexed by a constant
+                return ('name', self.facts.tables[base[1]][idx[1]])
             if base[0] == 'name' and is_const(idx) and isinstance(self.facts.consts.get(base[1]), (dict, list, tuple)):
                 # a module-level constant table indexed by a constant
                 try:
